@@ -53,7 +53,7 @@ CHECKS["C20"] = dict(
          "optional spurious condvar wake-ups). non-trivial = at least one context switch happened while >= 2 threads were inside "
          "the API under test; distinct = distinct FNV hash of the synchronisation-event trace",
     simtime_units="scheduling decisions",
-    probes=["wake_raced_with_park", "nested_depth3", "save_restore_window", "queue_contended", "priority_waiter", "second_wait_queue", "delegate_woken_through_a_handler_set_while_parked", "delegate_waiter_destroyed_while_parked"],
+    probes=["wake_raced_with_park", "nested_depth3", "save_restore_window", "queue_contended", "priority_waiter", "second_wait_queue", "delegate_woken_through_a_handler_set_while_parked", "delegate_waiter_destroyed_while_parked", "delegate_parked_itself_again_from_its_handler"],
     assumptions=["pthread primitives behave as modelled in sim/thr/thrsim.cpp", "pop() is only called when an item is available (std::queue precondition)",
                  "bare-metal variants (semaphore.cpp, syslock_irqs.c) are not compiled on this platform and not simulated"],
 )
